@@ -255,10 +255,13 @@ pub fn shape(pre: &IdealTree, op: &TreeOp) -> String {
                 let before = rem.iter().any(|r| r < s);
                 let inside = rem.iter().any(|r| r >= s && *r < end);
                 let after = rem.iter().any(|r| *r >= end);
+                // a position named twice counts once for the shape; ".dup" marks that the list had repeats
                 let mut sorted = rem.clone();
                 sorted.sort();
+                sorted.dedup();
+                let dup = sorted.len() != rem.len();
                 let contiguous = sorted.windows(2).all(|w| w[1] == w[0] + 1);
-                format!("R{}{}{}{}", if before { "b" } else { "" }, if inside { "i" } else { "" }, if after { "a" } else { "" }, if contiguous { "" } else { ".gaps" })
+                format!("R{}{}{}{}{}", if before { "b" } else { "" }, if inside { "i" } else { "" }, if after { "a" } else { "" }, if contiguous { "" } else { ".gaps" }, if dup { ".dup" } else { "" })
             };
             format!("batch.{}.{}.{}", ncls(vs.len()), rel, fit)
         }
@@ -816,11 +819,13 @@ impl Focus {
         }
     }
     /// does this property judge transitions made by `op`?
-    fn owns_op(&self, op: &TreeOp) -> bool {
+    fn owns_op(&self, op: &TreeOp, kind: Kind) -> bool {
         match self {
             Focus::C06 => !op.is_batch() && !matches!(op, TreeOp::Reopen | TreeOp::ComputeRoot | TreeOp::Recreate(_)),
             Focus::C07 => true,
-            Focus::C08 => op.is_batch(),
+            // (RLN::set_leaves_from, the byte-level entry point behind Range on the RLN backend, is one of the batch entry
+            // points C08 names)
+            Focus::C08 => op.is_batch() || (kind == Kind::Rln && matches!(op, TreeOp::Range(..))),
             Focus::C15 => true,
         }
     }
@@ -904,7 +909,8 @@ fn case_json(c: &CaseCtx, op: &TreeOp) -> Value {
     let mut h: Vec<TreeOp> = c.hist.to_vec();
     h.push(op.clone());
     json!({"engine":"tree","backend":c.kind.name(),"depth":c.depth,"history":hist_json(&h),
-           "positions": if c.full { Value::Null } else { json!(c.positions) }})
+           "positions": if c.full && c.positions.len() as u64 == (1u64 << c.depth) { Value::Null } else { json!(c.positions) },
+           "dense": c.full && c.positions.len() as u64 != (1u64 << c.depth)})
 }
 
 pub fn judge(c: &CaseCtx, pre: &IdealTree, op: &TreeOp, outcome: &Outcome, be: &dyn Backend) -> Judged {
@@ -1014,7 +1020,7 @@ pub fn judge(c: &CaseCtx, pre: &IdealTree, op: &TreeOp, outcome: &Outcome, be: &
             all[0].0 = "wrong-state".into();
         }
     }
-    if c.focus.owns_op(op) {
+    if c.focus.owns_op(op, c.kind) {
         let mut seen = BTreeSet::new();
         for (s, d) in &all {
             if owned(c.focus, s) && seen.insert(s.clone()) {
@@ -1091,7 +1097,8 @@ pub fn alphabet(d: usize, vals: &[u8], with_batch: bool, with_plain: bool, extra
         let mut starts = vec![0, 1, c / 2, c - 1];
         starts.sort();
         starts.dedup();
-        let mut rsets: Vec<Vec<u64>> = vec![vec![], vec![0], vec![c - 1], vec![0, 1], vec![0, 2], vec![1, 3], vec![c], vec![2, 0]];
+        // (removal lists may name a position more than once, adjacently or not)
+        let mut rsets: Vec<Vec<u64>> = vec![vec![], vec![0], vec![c - 1], vec![0, 1], vec![0, 2], vec![1, 3], vec![c], vec![2, 0], vec![0, 0], vec![0, 0, c - 1], vec![1, c - 1, 1], vec![c - 1, 0, c - 1]];
         rsets.retain(|r| r.iter().all(|x| *x <= c));
         rsets.sort();
         rsets.dedup();
@@ -1099,6 +1106,14 @@ pub fn alphabet(d: usize, vals: &[u8], with_batch: bool, with_plain: bool, extra
             for n in 0..=2usize {
                 let vs: Vec<u8> = (0..n).map(|k| if k % 2 == 0 { a } else { b }).collect();
                 for r in &rsets {
+                    // lists with repeats: removal-only batches (in a batch that also writes leaves the persistent backend
+                    // has its listed defect for almost every shape; repeats there would only re-report it under new names)
+                    let mut dd = r.clone();
+                    dd.sort();
+                    dd.dedup();
+                    if dd.len() != r.len() && n != 0 {
+                        continue;
+                    }
                     ops.push(TreeOp::Batch(*s, vs.clone(), r.clone()));
                 }
             }
@@ -1157,6 +1172,9 @@ pub struct ExploreCfg {
     pub full_obs: bool,
     /// optional restriction of the histories: (history so far, next operation) -> explored?
     pub allow: Option<fn(&[TreeOp], &TreeOp) -> bool>,
+    /// sparse plans: operations after which EVERY node of the tree is compared (in-memory and persistent backends;
+    /// the RLN byte API keeps the sparse observation)
+    pub dense_after: Option<fn(&TreeOp) -> bool>,
     pub label: String,
 }
 
@@ -1277,7 +1295,8 @@ pub fn explore(cfg: &ExploreCfg, findings: &Findings, deadline: Option<std::time
                 return Ok(None);
             }
             let t1 = std::time::Instant::now();
-            let cc = CaseCtx { focus: cfg.focus, kind, depth: cfg.depth, positions: &cfg.positions, full: cfg.full_obs, hist: &node.hist, binding_seen: Some(&binding_seen) };
+            let dense = cfg.full_obs || (kind != Kind::Rln && cfg.dense_after.map(|f| f(op)).unwrap_or(false));
+            let cc = CaseCtx { focus: cfg.focus, kind, depth: cfg.depth, positions: &cfg.positions, full: dense, hist: &node.hist, binding_seen: Some(&binding_seen) };
             let j = judge(&cc, &node.model, op, &outcome, be.as_ref());
             if timing {
                 eprintln!("[timing] {} {:?} apply {:.3}s judge {:.3}s", kind.name(), op, (t1 - t0).as_secs_f64(), t1.elapsed().as_secs_f64());
@@ -1289,7 +1308,8 @@ pub fn explore(cfg: &ExploreCfg, findings: &Findings, deadline: Option<std::time
         let local_done = par_map(&local_items, ncpu(), |_, it| run_local(it));
         let remote_reqs: Vec<Value> = remote_idx.iter().map(|i| {
             let (ni, oi, kind) = items[*i];
-            json!({"focus": cfg.focus.id(), "kind": kind.name(), "depth": cfg.depth, "positions": if cfg.full_obs { Value::Null } else { json!(cfg.positions) },
+            json!({"focus": cfg.focus.id(), "kind": kind.name(), "depth": cfg.depth, "positions": if cfg.full_obs && cfg.positions.len() as u64 == (1u64 << cfg.depth) { Value::Null } else { json!(cfg.positions) },
+                   "dense": cfg.full_obs || (kind != Kind::Rln && cfg.dense_after.map(|f| f(&cfg.ops[oi])).unwrap_or(false)),
                    "hist": hist_json(&frontier[ni].hist), "op": cfg.ops[oi].to_json(), "model": model_to_json(&frontier[ni].model)})
         }).collect();
         // a level that runs past the cap (plus a grace period) is abandoned as a whole: nothing of it is counted
@@ -1473,7 +1493,7 @@ pub fn worker_tree() -> i32 {
         let hist: Vec<TreeOp> = req["hist"].as_array().map(|a| a.iter().filter_map(TreeOp::from_json).collect()).unwrap_or_default();
         let op = match TreeOp::from_json(&req["op"]) { Some(o) => o, None => return json!({"error": "bad op"}) };
         let (positions, full): (Vec<u64>, bool) = match req["positions"].as_array() {
-            Some(a) => (a.iter().filter_map(|x| x.as_u64()).collect(), false),
+            Some(a) => (a.iter().filter_map(|x| x.as_u64()).collect(), req["dense"] == true),
             None => ((0..(1u64 << depth)).collect(), true),
         };
         // the model state before the operation is sent by the explorer; the backend gets there by replay
@@ -1498,7 +1518,7 @@ pub fn run_history(focus: Focus, case: &Value) -> Vec<Discrepancy> {
     let depth = case["depth"].as_u64().unwrap_or(3) as usize;
     let hist: Vec<TreeOp> = case["history"].as_array().map(|a| a.iter().filter_map(TreeOp::from_json).collect()).unwrap_or_default();
     let (positions, full): (Vec<u64>, bool) = match case["positions"].as_array() {
-        Some(a) => (a.iter().filter_map(|x| x.as_u64()).collect(), false),
+        Some(a) => (a.iter().filter_map(|x| x.as_u64()).collect(), case["dense"] == true),
         None => ((0..(1u64 << depth)).collect(), true),
     };
     let mut out = vec![];
@@ -1583,7 +1603,7 @@ impl TreeProp {
             plans.push(ExploreCfg {
                 focus: f, depth: 1, ops,
                 backends: vec![(Kind::Full, 12), (Kind::Optimal, 12), (Kind::Pm, pl), (Kind::Rln, pl)],
-                nodedup_len: 2, max_len: 12, positions: all(1), full_obs: true, allow: None, label: "depth1.values-ab".into(),
+                nodedup_len: 2, max_len: 12, positions: all(1), full_obs: true, allow: None, dense_after: None, label: "depth1.values-ab".into(),
             });
         }
         // depth 2: two non-default values
@@ -1593,7 +1613,7 @@ impl TreeProp {
             plans.push(ExploreCfg {
                 focus: f, depth: 2, ops,
                 backends: vec![(Kind::Full, 12), (Kind::Optimal, 12), (Kind::Pm, pl), (Kind::Rln, pl)],
-                nodedup_len: 2, max_len: if q { 3 } else { 12 }, positions: all(2), full_obs: true, allow: None, label: "depth2.values-ab".into(),
+                nodedup_len: 2, max_len: if q { 3 } else { 12 }, positions: all(2), full_obs: true, allow: None, dense_after: None, label: "depth2.values-ab".into(),
             });
         }
         if q {
@@ -1620,7 +1640,10 @@ impl TreeProp {
                 for s in [0, 1, c - 1] {
                     for n in 0..=2usize {
                         let vs: Vec<u8> = (0..n).map(|k| if k % 2 == 0 { 1 } else { 2 }).collect();
-                        for r in [vec![], vec![0], vec![c - 1], vec![0, 2], vec![c]] {
+                        for r in [vec![], vec![0], vec![c - 1], vec![0, 2], vec![c], vec![0, 0, c - 1], vec![1, c - 1, 1]] {
+                            if n != 0 && r.len() == 3 {
+                                continue; // repeats: removal-only batches (see `alphabet`)
+                            }
                             ops.push(TreeOp::Batch(s, vs.clone(), r));
                         }
                     }
@@ -1634,7 +1657,7 @@ impl TreeProp {
             plans.push(ExploreCfg {
                 focus: f, depth: 2, ops,
                 backends: vec![(Kind::Pm, 2), (Kind::Rln, 2)],
-                nodedup_len: 2, max_len: 2, positions: all(2), full_obs: true, allow: None, label: "depth2.reduced-alphabet.persistent".into(),
+                nodedup_len: 2, max_len: 2, positions: all(2), full_obs: true, allow: None, dense_after: None, label: "depth2.reduced-alphabet.persistent".into(),
             });
         }
         // depth 3: one non-default value to a deeper bound, two values to a shallower one
@@ -1643,7 +1666,7 @@ impl TreeProp {
             focus: f, depth: 3, ops: ops3a,
             backends: vec![(Kind::Full, 12), (Kind::Optimal, 12), (Kind::Pm, if q { 1 } else { 2 }), (Kind::Rln, if q { 1 } else { 2 })],
             nodedup_len: 2, max_len: if q { 2 } else { 4 },
-            positions: all(3), full_obs: true, allow: None, label: "depth3.value-a".into(),
+            positions: all(3), full_obs: true, allow: None, dense_after: None, label: "depth3.value-a".into(),
         });
         let ops3b = alphabet(3, &[1, 2], with_batch, with_plain, &extra);
         // (quick tier: the two-value depth-3 plan only where the alphabet is small; the one-value plan above and the
@@ -1653,7 +1676,7 @@ impl TreeProp {
             focus: f, depth: 3, ops: ops3b,
             backends: vec![(Kind::Full, 12), (Kind::Optimal, 12), (Kind::Pm, 1), (Kind::Rln, 1)],
             nodedup_len: 2, max_len: if q { 2 } else { 3 },
-            positions: all(3), full_obs: true, allow: None, label: "depth3.values-ab".into(),
+            positions: all(3), full_obs: true, allow: None, dense_after: None, label: "depth3.values-ab".into(),
         });
         }
         if !q {
@@ -1683,7 +1706,7 @@ impl TreeProp {
                 plans.push(ExploreCfg {
                     focus: f, depth: d, ops,
                     backends: vec![(Kind::Full, 2), (Kind::Optimal, 2), (Kind::Pm, 1)],
-                    nodedup_len: 1, max_len: 2, positions: all(d), full_obs: true, allow: None, label: format!("depth{d}.ranges"),
+                    nodedup_len: 1, max_len: 2, positions: all(d), full_obs: true, allow: None, dense_after: None, label: format!("depth{d}.ranges"),
                 });
             }
         }
@@ -1711,7 +1734,7 @@ impl TreeProp {
                 plans.push(ExploreCfg {
                     focus: f, depth: d, ops,
                     backends: vec![(Kind::Full, 4), (Kind::Optimal, 4), (Kind::Pm, if q { 1 } else { 2 })],
-                    nodedup_len: 1, max_len: if q && d == 5 && f == Focus::C07 { 3 } else { 4 }, positions: all(d), full_obs: true, allow: None, label: format!("depth{d}.rewrite"),
+                    nodedup_len: 1, max_len: if q && d == 5 && f == Focus::C07 { 3 } else { 4 }, positions: all(d), full_obs: true, allow: None, dense_after: None, label: format!("depth{d}.rewrite"),
                 });
             }
         }
@@ -1745,7 +1768,7 @@ impl TreeProp {
             plans.push(ExploreCfg {
                 focus: f, depth: 10, ops,
                 backends: vec![(Kind::Full, 3), (Kind::Optimal, 3), (Kind::Pm, 2), (Kind::Rln, if q { 1 } else { 2 })],
-                nodedup_len: 1, max_len: if q { 2 } else { 3 }, positions: pos, full_obs: false, allow: None, label: "depth10.boundaries".into(),
+                nodedup_len: 1, max_len: if q { 2 } else { 3 }, positions: pos, full_obs: false, allow: None, dense_after: None, label: "depth10.boundaries".into(),
             });
         }
         // depth 7: removal lists whose members are far apart (several subtrees away from each other), some of them
@@ -1754,13 +1777,13 @@ impl TreeProp {
         if with_batch {
             let pat = |n: u64| -> Vec<u8> { (0..n).map(|k| if k % 2 == 0 { 1 } else { 2 }).collect() };
             let mut ops = vec![TreeOp::Range(0, pat(20)), TreeOp::Set(3, 1), TreeOp::Set(100, 2), TreeOp::Delete(11), TreeOp::Append(1)];
-            for r in [vec![3u64, 100], vec![3, 40], vec![0, 127], vec![19, 20], vec![3, 11, 19], vec![100, 3], vec![3, 50, 100], vec![64, 96]] {
+            for r in [vec![3u64, 100], vec![3, 40], vec![0, 127], vec![19, 20], vec![3, 11, 19], vec![100, 3], vec![3, 50, 100], vec![64, 96], vec![11, 11, 19], vec![3, 19, 3]] {
                 ops.push(TreeOp::Batch(0, vec![], r));
             }
             plans.push(ExploreCfg {
                 focus: f, depth: 7, ops,
                 backends: vec![(Kind::Full, 3), (Kind::Optimal, 3), (Kind::Pm, if q { 2 } else { 3 }), (Kind::Rln, 2)],
-                nodedup_len: 1, max_len: if q && f == Focus::C07 { 2 } else { 3 }, positions: all(7), full_obs: true, allow: None, label: "depth7.sparse-removals".into(),
+                nodedup_len: 1, max_len: if q && f == Focus::C07 { 2 } else { 3 }, positions: all(7), full_obs: true, allow: None, dense_after: None, label: "depth7.sparse-removals".into(),
             });
             let run = |a: u64, b: u64| -> Vec<u64> { (a..b).collect() };
             let mut ops = vec![TreeOp::Range(0, pat(4)), TreeOp::Set(30, 1), TreeOp::Append(2), TreeOp::Delete(5)];
@@ -1776,13 +1799,13 @@ impl TreeProp {
             plans.push(ExploreCfg {
                 focus: f, depth: 5, ops,
                 backends: vec![(Kind::Full, 3), (Kind::Optimal, 3), (Kind::Pm, if q { 2 } else { 3 }), (Kind::Rln, 2)],
-                nodedup_len: 1, max_len: 3, positions: all(5), full_obs: true, allow: None, label: "depth5.long-runs".into(),
+                nodedup_len: 1, max_len: 3, positions: all(5), full_obs: true, allow: None, dense_after: None, label: "depth5.long-runs".into(),
             });
         }
         // depth 16: ONE long operation per history (a range write, batch write or removal run of 2^k + 1 positions,
         // k up to 15: block sizes at which an implementation may switch strategy), before it one short operation that
         // puts the leaf count above or below the range, after it one short operation; sparse observation around
-        // both ends of the range
+        // both ends of the range for leaves and proofs; thorough tier: after the long operation EVERY node of the tree (all levels) is compared
         if f != Focus::C07 || !q {
             let d = 16usize;
             let c = 1u64 << d;
@@ -1798,7 +1821,13 @@ impl TreeProp {
             for l in &lens {
                 if with_plain {
                     ops.push(TreeOp::Range(0, pat(*l)));
-                    if 1 + *l <= c {
+                    // unaligned start: the length rounded down to the power of two (an exact number of blocks that
+                    // does not start on a block boundary)
+                    let exact = if l.is_power_of_two() { *l } else { 1u64 << (63 - l.leading_zeros()) };
+                    if 1 + exact <= c && exact > 8 {
+                        ops.push(TreeOp::Range(1, pat(exact)));
+                    }
+                    if !q && 1 + *l <= c {
                         ops.push(TreeOp::Range(1, pat(*l)));
                     }
                 }
@@ -1834,12 +1863,12 @@ impl TreeProp {
             plans.push(ExploreCfg {
                 focus: f, depth: d, ops,
                 backends: vec![(Kind::Full, 3), (Kind::Optimal, 3), (Kind::Pm, 3), (Kind::Rln, if q { 1 } else { 2 })],
-                nodedup_len: 1, max_len: 3, positions: pos, full_obs: false, allow: Some(one_long), label: "depth16.one-long-operation".into(),
+                nodedup_len: 1, max_len: 3, positions: pos, full_obs: false, allow: Some(one_long), dense_after: if q { None } else { Some(long_op) }, label: "depth16.one-long-operation".into(),
             });
         }
         // depth 17: range / batch writes of 65 535, 65 536 and 65 537 leaves (counts around the 16-bit boundary), alone,
-        // after a write that puts the leaf count above them, and followed by an append (quick tier: C06 only)
-        if !q || f == Focus::C06 {
+        // after a write that puts the leaf count above them, and followed by an append (thorough tier: the persistent backend needs about 12 s for one such write)
+        if !q {
             let d = 17usize;
             let c = 1u64 << d;
             let pat = |n: u64| -> Vec<u8> { (0..n).map(|k| if k % 2 == 0 { 1 } else { 2 }).collect() };
@@ -1865,7 +1894,7 @@ impl TreeProp {
             plans.push(ExploreCfg {
                 focus: f, depth: d, ops,
                 backends: vec![(Kind::Full, 2), (Kind::Optimal, 2), (Kind::Pm, 2), (Kind::Rln, if q { 1 } else { 2 })],
-                nodedup_len: 1, max_len: 2, positions: pos, full_obs: false, allow: Some(one_long17), label: "depth17.sixteen-bit-counts".into(),
+                nodedup_len: 1, max_len: 2, positions: pos, full_obs: false, allow: Some(one_long17), dense_after: Some(long17), label: "depth17.sixteen-bit-counts".into(),
             });
         }
         // depth 20: position alphabet, sparse observation
@@ -1873,7 +1902,7 @@ impl TreeProp {
             let pos: Vec<u64> = POS20.to_vec();
             let c = 1u64 << 20;
             let mut ops = vec![];
-            let pset: Vec<u64> = if q { vec![0, 255, (1 << 19) - 1, 1 << 19, c - 1] } else { pos.clone() };
+            let pset: Vec<u64> = if q { vec![0, 255, (1 << 19) - 1, 1 << 19, c - 2, c - 1] } else { pos.clone() };
             // note: pmtree 2.0.2 walks every leaf to the left of a range inside the touched subtree, so a
             // range write far from offset 0 at depth 20 costs tens of seconds; the quick tier keeps range
             // starts <= 256 (plus rejected ranges, which cost nothing) and leaves the far ones to thorough
@@ -1913,7 +1942,7 @@ impl TreeProp {
             plans.push(ExploreCfg {
                 focus: f, depth: 20, ops: light,
                 backends: vec![(Kind::Optimal, 3), (Kind::Pm, if q { 2 } else { 3 }), (Kind::Rln, 2)],
-                nodedup_len: 1, max_len: if q { 2 } else { 3 }, positions: pos.clone(), full_obs: false, allow: None, label: "depth20.positions".into(),
+                nodedup_len: 1, max_len: if q { 2 } else { 3 }, positions: pos.clone(), full_obs: false, allow: None, dense_after: None, label: "depth20.positions".into(),
             });
             if !far.is_empty() {
                 let mut fops = far;
@@ -1922,7 +1951,7 @@ impl TreeProp {
                 plans.push(ExploreCfg {
                     focus: f, depth: 20, ops: fops,
                     backends: vec![(Kind::Optimal, 2), (Kind::Pm, 1), (Kind::Rln, 1)],
-                    nodedup_len: 1, max_len: 2, positions: pos, full_obs: false, allow: None, label: "depth20.far-offset-ranges".into(),
+                    nodedup_len: 1, max_len: 2, positions: pos, full_obs: false, allow: None, dense_after: None, label: "depth20.far-offset-ranges".into(),
                 });
             }
         }
